@@ -242,6 +242,18 @@ impl Prop for P {
         ] {
             docs.push(extra);
         }
+        // every depth-1 document preceded, in the same block, by text that ends in white space
+        for d in block_docs(1, G { tables: true, pre: true, valid_only: true }) {
+            let mut v = vec![e("p", vec![t("qy ")])];
+            v.extend(d.clone());
+            docs.push(v);
+            let mut inner = vec![t("qy\n")];
+            inner.extend(d.clone());
+            if valid(&[e("div", inner.clone())]) {
+                docs.push(vec![e("div", inner.clone())]);
+                docs.push(vec![e("blockquote", inner)]);
+            }
+        }
         Box::new(S { docs, maxw: tier.pick(20, 30), pair_widths: tier.pick(vec![1, 3, 6, 12], vec![1, 2, 3, 5, 8, 12, 20]) })
     }
     fn replay(&self, case: &Value, cx: &mut Cx) {
